@@ -39,8 +39,9 @@ RULE = ("five case shapes. (probs) one real problem — a bundled example (unifi
         "kind; (pipe) a pipeline of >= 2 stages ran to the end; (rk) the transformer changed the kind or failed its version "
         "assertion; (chain) >= 2 stages selected or no engine found.")
 ASSUMPTIONS = [
-    "a compiler that raises on a problem inside its supported kind produces no compiled problem: that is C08's subject; "
-    "such cases are counted (distribution: compile-error:<class>) and make no demand here",
+    "a compiler that raises on a problem inside its supported kind (or does not finish within 8 s: a DNF can blow up) "
+    "produces no compiled problem: that is C08's subject; such cases are counted (distribution: compile-error:<class>) "
+    "and make no demand here",
     "Ks0Compiler is given two possible_initial_states when the problem is not a ContingentProblem (it cannot be run "
     "otherwise): the problem's initial state and the one with its first Boolean fluent flipped",
     "only the compilers shipped in unified_planning/engines/compilers are registered in the factory (no external grounders); "
@@ -269,8 +270,33 @@ def make_compiler(C, P):
     return C()
 
 
-# observations of the real code, shared by impl / oracle / model_payload / stats (same payload -> same record)
+# observations of the real code, shared by impl / oracle / model_payload / stats (same payload -> same record:
+# run_check asks for them in separate passes over all cases, so the records of a whole run are kept; they are small)
 _CACHE = OrderedDict()
+_CACHE_MAX = 50000
+COMPILE_LIMIT_S = 8
+
+
+class _CompileTimeout(Exception):
+    pass
+
+
+def _compile_limited(C, P, ck):
+    """compile with a wall-clock limit (a DNF can blow up): exceeding it counts as 'no compiled problem'"""
+    import signal
+
+    def on_alarm(*_):
+        raise _CompileTimeout()
+    try:
+        old = signal.signal(signal.SIGALRM, on_alarm)
+    except ValueError:       # not in the main thread: no limit
+        return make_compiler(C, P).compile(P, CompilationKind[ck])
+    signal.alarm(COMPILE_LIMIT_S)
+    try:
+        return make_compiler(C, P).compile(P, CompilationKind[ck])
+    finally:
+        signal.alarm(0)
+        signal.signal(signal.SIGALRM, old)
 
 
 def _key(payload):
@@ -300,7 +326,7 @@ def observe_probs(payload):
             for ck in cks_of(C):
                 row = {"cls": cname, "ck": ck}
                 try:
-                    res = make_compiler(C, P).compile(P, CompilationKind[ck])
+                    res = _compile_limited(C, P, ck)
                     if res.problem is None:
                         raise RuntimeError("no problem")
                     row["kq"] = enc_kind(res.problem.kind)
@@ -316,7 +342,7 @@ def observe_probs(payload):
                     row["declared"] = "raise:" + type(e).__name__
                 rec["rows"].append(row)
     _CACHE[key] = rec
-    while len(_CACHE) > 64:
+    while len(_CACHE) > _CACHE_MAX:
         _CACHE.popitem(last=False)
     return rec
 
@@ -364,7 +390,7 @@ def observe_pipe(payload):
                 rec["rows"].append(row)
                 break
             try:
-                res = make_compiler(C, cur).compile(cur, CompilationKind[ck])
+                res = _compile_limited(C, cur, ck)
                 if res.problem is None:
                     raise RuntimeError("no problem")
             except Exception as e:
@@ -377,7 +403,7 @@ def observe_pipe(payload):
             row["extra"] = extra_features(kq, declared)
             rec["rows"].append(row)
     _CACHE[key] = rec
-    while len(_CACHE) > 64:
+    while len(_CACHE) > _CACHE_MAX:
         _CACHE.popitem(last=False)
     return rec
 
